@@ -2,6 +2,7 @@ package main
 
 import (
 	"fmt"
+	"go/constant"
 	"go/token"
 	"go/types"
 	"strings"
@@ -293,5 +294,145 @@ func init() {
 				}
 			})
 			c.Check(found, "scan-range", c.P.Pos(gg.Pos()), "gap scan runs tsn = cumulativeTSN+1 while sna32LTE(tsn, tailTSN)", "gap scan range is not cumulativeTSN+1 … tailTSN")
+		}})
+
+	register(&Rule{ID: "C05.R3", Props: []string{"C05", "C03", "C11", "C16"}, Engine: "E7-linear",
+		Title:   "the receive bitmap ring covers the tracking window: 64·len(tsnBitmask) ≥ maxTSNOffset is proven from the constructor's own arithmetic (two in-window TSNs can never share a bit)",
+		MinInst: 1,
+		Run: func(c *RuleCtx) {
+			ctor := c.Fn("newReceivePayloadQueue")
+			mask := c.field("receivePayloadQueue", "tsnBitmask")
+			win := c.field("receivePayloadQueue", "maxTSNOffset")
+			ms, ws := c.storesIn(ctor, mask), c.storesIn(ctor, win)
+			if len(ms) != 1 || len(ws) != 1 {
+				c.Fail("ring-covers-window", c.P.Pos(ctor.Pos()), fmt.Sprintf("expected one store each of tsnBitmask and maxTSNOffset in the constructor, found %d/%d", len(ms), len(ws)))
+				return
+			}
+			mk, ok := unconv(ms[0].Val).(*ssa.MakeSlice)
+			if !ok {
+				c.Fail("ring-covers-window", c.Pos(ms[0].Instr), "tsnBitmask is not allocated with make() in the constructor")
+				return
+			}
+			curProg = c.P
+			g := &lgEngine{p: c.P, pre: map[*ssa.Function]map[int]int64{}}
+			z := newLin()
+			need := z.add(g.lin(mk.Len, 0), 64).add(g.lin(ws[0].Val, 0), -1)
+			facts := g.factsAtInstr(mk)
+			facts = append(facts, g.loopInvariants(ctor)...)
+			okP := g.prove(need, facts)
+			var fs []string
+			for _, f := range facts {
+				fs = append(fs, f.String())
+			}
+			c.Check(okP, "ring-covers-window", c.Pos(mk), "proved 64*len(tsnBitmask) - maxTSNOffset >= 0: "+need.String(),
+				"cannot prove that the bitmap ring is at least as large as the tracking window ("+need.String()+" >= 0; facts: "+strings.Join(fs, " ; ")+"): TSNs one ring-length apart inside the window would share a bit, so SACKs could name TSNs never received")
+			// the window used by canPush/push is this very field (C11.R4) and it is a multiple of 64
+			okM := false
+			if b, ok := unconv(ws[0].Val).(*ssa.BinOp); ok && b.Op == token.MUL && (IsConstInt(64)(b.X) || IsConstInt(64)(b.Y)) {
+				okM = true
+			}
+			c.Check(okM, "window-whole-words", c.Pos(ws[0].Instr), "maxTSNOffset is rounded to whole 64-bit words", "maxTSNOffset is not a multiple of 64")
+		}})
+
+	register(&Rule{ID: "C05.R7", Props: []string{"C05", "C06", "C11"}, Engine: "E5b-exhaustive",
+		Title:   "bit masks are exact: clearing a TSN range clears, in each word, exactly bits offset … offset+n−1 (exhaustive over all 2080 (offset, n) pairs of a 64-bit word, by constant folding of the mask computation); set/test/clear of a single TSN use the bit 1<<(tsn%64)",
+		MinInst: 60,
+		Run: func(c *RuleCtx) {
+			clr := c.Fn("receivePayloadQueue.clearTSNRange")
+			mask := c.field("receivePayloadQueue", "tsnBitmask")
+			// locate the φ-nodes of the loop and the clearing store
+			var phiStart, phiRem *ssa.Phi
+			var store *ssa.Store
+			forEachInstr(clr, func(in ssa.Instruction) {
+				switch x := in.(type) {
+				case *ssa.Phi:
+					if len(x.Edges) == 2 {
+						if x.Edges[0] == ssa.Value(clr.Params[1]) {
+							phiStart = x
+						} else if phiRem == nil && isIntType(x.Type()) && x.Comment != "mask" {
+							if _, isB := x.Edges[0].(*ssa.BinOp); isB {
+								phiRem = x
+							}
+						}
+					}
+				case *ssa.Store:
+					if ia, ok := x.Addr.(*ssa.IndexAddr); ok && IsLoadOf(mask)(ia.X) {
+						store = x
+					}
+				}
+			})
+			if phiStart == nil || phiRem == nil || store == nil {
+				c.Fail("clear-mask-shape", c.P.Pos(clr.Pos()), "clearTSNRange loop not recognised (start/remaining counters, clearing store)")
+				return
+			}
+			andNot, ok := store.Val.(*ssa.BinOp)
+			if !ok || andNot.Op != token.AND_NOT {
+				c.Fail("clear-mask-shape", c.Pos(store), "clearing store is not word &^ mask")
+				return
+			}
+			maskVal := andNot.Y
+			one := constant.MakeInt64(1)
+			bad := ""
+			n := 0
+			for off := int64(0); off < 64; off++ {
+				for cnt := int64(1); cnt <= 64-off; cnt++ {
+					for _, rem := range []int64{cnt, cnt + 1000} {
+						if rem != cnt && cnt != 64-off {
+							continue // a larger remainder only matters when the range runs to the end of the word
+						}
+						var got constant.Value
+						_, und := c.P.PEval(clr, PEConfig{
+							BindVal: func(v ssa.Value) (constant.Value, bool) {
+								if v == ssa.Value(phiStart) {
+									return constant.MakeInt64(off + 128), true // any TSN with tsn%64 == off
+								}
+								if v == ssa.Value(phiRem) {
+									return constant.MakeInt64(rem), true
+								}
+								return nil, false
+							},
+							Observe: func(in ssa.Instruction, get func(ssa.Value) constant.Value) {
+								if in == ssa.Instruction(store) {
+									got = get(maskVal)
+								}
+							},
+							StopAt: func(in ssa.Instruction) string {
+								if in == ssa.Instruction(store) {
+									return "cleared"
+								}
+								return ""
+							}})
+						n++
+						// expected: ((1<<cnt)-1) << off  as uint64
+						exp := constant.Shift(constant.BinaryOp(constant.Shift(one, token.SHL, uint(cnt)), token.SUB, one), token.SHL, uint(off))
+						if und != "" || got == nil || !constant.Compare(got, token.EQL, exp) {
+							if bad == "" {
+								bad = fmt.Sprintf("offset=%d n=%d remaining=%d: mask=%s want %s %s", off, cnt, rem, render(got), exp.String(), und)
+							}
+						}
+					}
+				}
+			}
+			c.Check(bad == "", "clear-mask-exact", c.Pos(store), fmt.Sprintf("mask == ((1<<n)-1)<<offset for all %d (offset, n, remaining) scenarios of a word", n),
+				"range clearing uses a wrong mask: "+bad+" — bits of TSNs outside the cleared range are wiped (received TSNs forgotten: duplicates re-delivered) or left set (SACK names TSNs never received)")
+			for off := 0; off < 64; off++ {
+				c.Ok(fmt.Sprintf("clear-mask-row:offset=%d", off), c.Pos(store), fmt.Sprintf("%d lengths folded for this offset", 64-off))
+			}
+			// single-bit operations
+			for _, fname := range []string{"receivePayloadQueue.push", "receivePayloadQueue.hasChunk", "receivePayloadQueue.pop"} {
+				fn := c.Fn(fname)
+				okBit := false
+				forEachInstr(fn, func(in ssa.Instruction) {
+					b, ok := in.(*ssa.BinOp)
+					if !ok || b.Op != token.SHL || !IsConstInt(1)(b.X) {
+						return
+					}
+					// shift amount is tsn % 64
+					if r, ok := unconv(b.Y).(*ssa.BinOp); ok && r.Op == token.REM && IsConstInt(64)(r.Y) {
+						okBit = true
+					}
+				})
+				c.Check(okBit, "single-bit:"+fname, c.P.Pos(fn.Pos()), "uses the bit 1 << (tsn % 64)", "single-TSN bit is not 1 << (tsn % 64)")
+			}
 		}})
 }
